@@ -395,7 +395,7 @@ def main(argv):
         from fparser.two import C99Preprocessor as C99
         from fparser.two.utils import walk
         payload = lambda s: "".join(s.replace("\\\n", "").split()).lower()     # noqa: E731
-        for name in ("plain", "module", "select_where"):
+        for name in ("plain", "module", "select_where", "labelled_do_action_term", "labelled_do_continue", "named_constructs"):
             lines = CATALOGUE[name].splitlines()
             base_tree = parse(CATALOGUE[name], "f2003")
             for pos in range(0, len(lines) + 1):
@@ -405,17 +405,17 @@ def main(argv):
                     try:
                         t = parse(src, "f2003")
                     except BaseException as e:  # noqa
-                        fail("cpp#directive_does_not_disturb_parse", dict(source=src), "%s: %s" % (type(e).__name__, str(e)[:120]))
+                        fail("cpp#directive_does_not_disturb_parse", dict(program=name, position=pos, directive=d, source=src), "%s: %s" % (type(e).__name__, str(e)[:120]))
                         continue
                     cpp_nodes = [n for n in walk(t) if type(n).__module__ == C99.__name__ and type(n).__name__.endswith("_Stmt")]
                     if len(cpp_nodes) != 1:
-                        fail("cpp#one_node_per_directive", dict(source=src), dict(nodes=[type(n).__name__ for n in cpp_nodes]))
+                        fail("cpp#one_node_per_directive", dict(program=name, position=pos, directive=d, source=src), dict(nodes=[type(n).__name__ for n in cpp_nodes]))
                         continue
                     if payload(str(cpp_nodes[0])) != payload(d):
-                        fail("cpp#payload_intact", dict(source=src), dict(printed=str(cpp_nodes[0]), directive=d))
+                        fail("cpp#payload_intact", dict(program=name, position=pos, directive=d, source=src), dict(printed=str(cpp_nodes[0]), directive=d))
                     rest = [l.strip() for l in str(t).splitlines() if l.strip() != str(cpp_nodes[0]).strip()]
                     if rest != [l.strip() for l in str(base_tree).splitlines()]:
-                        fail("cpp#rest_of_tree_unchanged", dict(source=src), dict(printed=str(t)[:400]))
+                        fail("cpp#rest_of_tree_unchanged", dict(program=name, position=pos, directive=d, source=src), dict(printed=str(t)[:400]))
         # comments retained: directives placed among comments (before, between, after) leave every other node where it was
         def signature(tree):
             out = []
